@@ -7,7 +7,7 @@ From Coq Require Import String.
 From Aelys Require Import Extracted.ValueConsts Extracted.Opcodes Model.Value Model.VmArith Proofs.FoldVmProofs.
 From Aelys Require Import Base.Tactics Model.Lang Model.Eval Extracted.OptConsts Model.Opt.Fold
   Model.PureEval Proofs.EvalProofs Proofs.FoldProofs Proofs.PureProofs Proofs.EvalMono Proofs.FoldEvalProofs
-  Proofs.ValueMap Proofs.FoldSim Proofs.FoldSimExpr.
+  Proofs.ValueMap Proofs.FoldSim Proofs.FoldSimExpr Model.Opt.Dce Proofs.DceEval Proofs.DceSim Proofs.DceSim2.
 Local Open Scope Z_scope.
 
 (* whenever the folder replaces `a op b` by a literal, that literal is exactly the value the
@@ -141,6 +141,70 @@ Example C01_fold_program_all_nonvacuous :
   forallb nofun_s p = false /\ fold_program p <> p
   /\ run_program 400 p = mkOutcome OcOk (sb [49; 50; 49; 49; 10; 49; 49; 10; 49; 57; 10]%nat) "120"
   /\ run_program 400 (fold_program p) = run_program 400 p.
+Proof. vm_compute. repeat split; try reflexivity. discriminate. Qed.
+
+(* ------------------------------------------------------------------ dead-code elimination *)
+(* Model/Opt/Dce.v transcribes opt/src/passes/dead_code (constant `if` / ternary selection with
+   the unwrap-unless-it-declares rule, `while false` removal, the cut after the first terminator,
+   removal of empty blocks, and the rule that the last statement of a block -- its branches
+   included -- keeps its shape); on every run the tie checks that the model with
+   proc = (fun _ => false) produces exactly the real pass's output on the generated programs.
+   FULL STATEMENT for the variant that also rewrites the positions the implemented pass leaves
+   alone when they contain a lambda (proc = has_lam): every program, closures and all, every
+   fuel with which the original answers inside the modelled fragment. *)
+Theorem C01_dce_program_preserves_haslam : forall (fuel : nat) (p : program),
+  oc_class (run_program fuel p) <> OcFuel ->
+  oc_class (run_program fuel p) <> OcErr EUnsupported ->
+  run_program fuel (dce_program has_lam p) = run_program fuel p.
+Proof. exact dce_program_preserves_haslam. Qed.
+
+(* ... and therefore for the pass as implemented, wherever it coincides with that variant (no
+   lambda with something to rewrite sits in a condition of a statement-level if / while, a for
+   bound, a for-each iterable or a return expression); the tie evaluates this premise on every
+   generated program and reports how many satisfy it *)
+Theorem C01_dce_program_preserves : forall (fuel : nat) (p : program),
+  dce_program (fun _ => false) p = dce_program has_lam p ->
+  oc_class (run_program fuel p) <> OcFuel ->
+  oc_class (run_program fuel p) <> OcErr EUnsupported ->
+  run_program fuel (dce_program (fun _ => false) p) = run_program fuel p.
+Proof. exact dce_program_preserves. Qed.
+
+Theorem C01_dce_simulation : forall f : nat, dsim f.
+Proof. exact dsim_all. Qed.
+
+(* facts about the evaluator the pass relies on *)
+Theorem C01_terminators_never_complete : forall f : nat, term_ok f.
+Proof. exact term_ok_all. Qed.
+Theorem C01_cut_and_drop_preserve : forall L f d top mode env st st' r,
+  exec_stmts f d top mode env st L = (st', r) -> nf r ->
+  exec_stmts f d top mode env st (post L) = (st', r).
+Proof. exact post_preserves. Qed.
+
+(* non-vacuity: code after return / break / continue, constant ifs with and without else (one
+   hiding a declaration, which must stay wrapped), `while false`, a constant ternary, an
+   `else if true` arm in result position (which must NOT be unwrapped), dead code inside a closure
+   body *)
+Example C01_dce_nonvacuous :
+  let p := [SFun "f" [("c"%string, false)]
+              [SIf (EVar "c") (SBlock [SExpr (EInt 1)]) (Some (SIf (EBool true) (SBlock [SExpr (EInt 5)]) None))] [];
+            SFun "g" [("n"%string, false)]
+              [SLet "t" true (EInt 0);
+               SFor "i" (EInt 0) (EVar "n") false None
+                 (SBlock [SIf (EBin BEq (EVar "i") (EInt 3)) (SBlock [SBreak; SExpr (EAssign "t" (EInt 99))]) None;
+                          SIf (EBool true) (SBlock [SExpr (EAssign "t" (EBin BAdd (EVar "t") (EVar "i")))]) None;
+                          SIf (EBool false) (SBlock [SExpr (EAssign "t" (EInt 77))]) None;
+                          SWhile (EBool false) (SBlock [SExpr (EAssign "t" (EInt 55))])]);
+               SIf (EBool true) (SBlock [SLet "t" false (EInt 1000)]) None;
+               SLet "h" false (ELam [] [SRet (Some (EIf (EBool true) (EVar "t") (EInt 0))); SExpr (EAssign "t" (EInt 1))]);
+               SRet (Some (EVar "h"));
+               SExpr (EAssign "t" (EInt 2))] [];
+            SExpr (ECall (EVar "println") [ECall (EVar "f") [EBool true]]);
+            SExpr (ECall (EVar "println") [ECall (EVar "f") [EBool false]]);
+            SExpr (ECall (ECall (EVar "g") [EInt 6]) [])] in
+  dce_program (fun _ => false) p <> p
+  /\ dce_program (fun _ => false) p = dce_program has_lam p
+  /\ run_program 400 p = mkOutcome OcOk (sb [49; 10; 110; 117; 108; 108; 10]%nat) "3"
+  /\ run_program 400 (dce_program (fun _ => false) p) = run_program 400 p.
 Proof. vm_compute. repeat split; try reflexivity. discriminate. Qed.
 
 (* constant propagation kernel: replacing variables by the literals they are bound to is
